@@ -7,7 +7,7 @@ package io
 // ---- C17: JSON-safe conversion ----
 
 //@ func JsonSafeArray(vals, shiftDim) returns (result)
-//@   locals shape, length, ndims, from, to, step, i, result, i, v
+//@   locals shape, length, ndims, from, to, step, i@loop, result, i@loop, v
 //@   loopsigs 3fe3d512 276bda39
 //@   ndmodel locations
 //@   views unchecked
